@@ -46,7 +46,15 @@ func judgeModel(rep *core.Report, prop string, c *CaseResult, fi *FuncInfo, exps
 	ds := Compare(fi, exps)
 	seen := map[string]bool{}
 	for _, d := range ds {
-		if !governed[d.Exp.Governed] {
+		nearMiss := false
+		for _, n := range d.Exp.Notes {
+			if n == "near-miss-notation" {
+				nearMiss = true
+			}
+		}
+		// a default-governed leaf next to which a notation is spelled in another case belongs to the
+		// notation property as well (the notation must not capture it)
+		if !governed[d.Exp.Governed] && !(nearMiss && governed["map"]) {
 			continue
 		}
 		mech, dk, sk, extra := probeFeat(fi.Method, d.Exp.Path)
